@@ -43,6 +43,10 @@ MCFFQuick == Cfgs("ff", UserSeqs(FFUsersAll), {<<>>} \cup {<<p>> : p \in Perms(L
 MCFFListing == Cfgs("ff", {<<>>, <<u1>>}, {<<p>> : p \in Perms(LibA)})
 MCFFListingB == Cfgs("ff", {<<>>, <<u1>>, <<u4>>}, {<<p>> : p \in Perms(LibB)})
 
+\* small sets for the sensitivity runs
+MCFFSplit == Cfgs("ff", {<<u2>>, <<u2, u8>>, <<u1, u8>>, <<u8>>}, {<<>>} \cup {<<p>> : p \in Perms(LibA)})
+MCFFErr == Cfgs("ff", {<<u5>>, <<u1, u5>>, <<u1>>}, {<<>>, << <<b1, b3, b2>> >>})
+
 (* ---- build-file mode (gen_coords takes one library) *)
 v1 == F("v1.bld", "bld", TRUE, << ST("A", "g1", 41), S("vol", "B", 42) >>)
 v2 == F("v2.bld", "bld", TRUE, << ST("A", "g1", 43), ST("B", "g2", 44), S("vol", "B", 45) >>)
@@ -50,11 +54,12 @@ v3 == F("v3.bld", "bld", TRUE, << S("vol", "A", 46) >>)
 v4 == F("v4.bld", "bld", TRUE, << ST("A", "g3", 47), S("vol", "A", 48) >>)
 v5 == F("v5.ff", "ff", TRUE, << S("block", "A", 49) >>)
 v6 == F("v6.bld", "bld", TRUE, << S("vol", "B", 50), ST("B", "g2", 54), ST("A", "g1", 55) >>)
+v7 == F("v7.bld", "bld", TRUE, << ST("B", "g1", 57), S("vol", "A", 58), ST("A", "g1", 59), S("vol", "B", 60), ST("B", "g1", 61) >>)
 c1 == F("c1.bld", "bld", FALSE, << ST("A", "g1", 51), S("vol", "B", 52) >>)
 c2 == F("c2.bld", "bld", FALSE, << ST("B", "g2", 53) >>)
 c3 == F("c3.ff", "ff", FALSE, << S("block", "A", 56) >>)
 LibC == {c1, c2, c3}
-BldUsers == {v1, v2, v3, v4, v5, v6}
+BldUsers == {v1, v2, v3, v4, v5, v6, v7}
 MCBld == Cfgs("bld", UserSeqs(BldUsers), {<<>>} \cup {<<p>> : p \in Perms(LibC)})
 MCBldListing == Cfgs("bld", {<<>>, <<v3>>}, {<<p>> : p \in Perms(LibC)})
 MCQuick == MCFFQuick \cup MCBld
